@@ -141,6 +141,32 @@ def replay_twice(cfg, binp, path):
     return outs
 
 
+def race_pass(prop, cfg, tier, outdir):
+    """Separate free-running pass: same harness bodies, -race build, no scheduler, no runtime seam."""
+    binp = os.path.join(WORK, "bin", prop, "race_" + cfg["harness"])
+    try:
+        vbuild.build(cfg["harness"], binp, seam=False, race=True, test=cfg.get("test", False))
+    except vbuild.BuildError as e:
+        return {"error": "build: " + str(e)[-500:]}
+    out = os.path.join(outdir, "race.json")
+    if os.path.exists(out):
+        os.remove(out)
+    cmd, envx = worker_cmd(cfg, binp, ["-prop", prop + "RACE", "-tier", tier, "-out", out])
+    env = dict(os.environ)
+    env.update(envx)
+    env.update(TZ="UTC", GORACE="halt_on_error=0 exitcode=66")
+    p = subprocess.run(cmd, env=env, capture_output=True, text=True, cwd=VERIF, timeout=3600)
+    text = p.stdout + p.stderr
+    races = text.count("WARNING: DATA RACE")
+    info = {"races": races, "report": text[-6000:] if races else "", "rc": p.returncode}
+    if os.path.exists(out):
+        r = json.load(open(out))
+        info["iterations"] = r.get("evaluations", 0)
+    elif not races:
+        info["error"] = "race worker produced no result: " + text[-500:]
+    return info
+
+
 def validate_evidence(ev):
     req = ["property_id", "tier", "seed", "level", "coverage", "wall_s"]
     for k in req:
@@ -222,9 +248,23 @@ def main():
     rc = 0
     lines = []
     viol_paths = []
+    race_info = None
+    if cfg.get("race_pass"):
+        race_info = race_pass(prop, cfg, tier, outdir)
+        if race_info.get("error"):
+            m["exhaustive"] = False
+            m["caps"].append("race pass did not run: " + race_info["error"][:200])
+        elif race_info["races"] > 0:
+            m["n_violations"] += 1
+            rp = os.path.join(os.environ.get("VERIF_REPLAY_DIR", os.path.join(VERIF, "replays")), prop)
+            os.makedirs(rp, exist_ok=True)
+            path = os.path.join(rp, "race_report.txt")
+            open(path, "w").write(race_info["report"])
+            viol_paths.append(path)
+            lines.append("data race reported by the free-running -race pass:\n" + race_info["report"][:1500])
     for v in m["violations"]:
         viol_paths.append(write_replay(prop, v))
-    if m["violations"] and "Replay" not in cfg.get("skip", []):
+    if m["violations"] and "Replay" not in cfg.get("skip", []):  # (race reports have no replay)
         outs = replay_twice(cfg, binp, viol_paths[0])
         if outs[0] != outs[1]:
             print("HARNESS-ERROR: replaying the first violation twice gave different observations; not reported as a verdict")
@@ -257,6 +297,9 @@ def main():
         "workers": len(results), "worker_failures": errors[:3],
         "build": binfo,
     }
+    if race_info is not None:
+        cov["race_pass"] = {k: race_info.get(k) for k in ("races", "iterations", "rc", "error")}
+        cov["race_pass"]["note"] = "sampling pass (free-running -race build of the same bodies); not part of the exhaustive claim"
     ev = {"property_id": prop, "tier": tier, "seed": seed, "level": level, "coverage": cov,
           "assumptions": cfg.get("assumptions", []), "wall_s": round(wall, 2), "violations": m["n_violations"]}
     try:
